@@ -12,7 +12,9 @@ import (
 	"net/http/httptest"
 	"net/url"
 	"os"
+	"path"
 	"sort"
+	"strings"
 	"sync"
 	"time"
 
@@ -27,7 +29,8 @@ import (
 func init() { commands["seq"] = seqMain }
 
 type seqStep struct {
-	Op  string     `json:"op"` // update | get | getlogs
+	Op  string     `json:"op"` // update | probe | get | getlogs | getodd
+	Cls string     `json:"cls,omitempty"`
 	Log string     `json:"log,omitempty"`
 	Req *world.Req `json:"req,omitempty"`
 	// Wait asks for the next wall-clock second to start before the step (freshness runs).
@@ -39,6 +42,33 @@ type seqStep struct {
 type seqRun struct {
 	ID    string    `json:"id"`
 	Steps []seqStep `json:"steps"`
+	// Phases, when present, are executed one after the other, each on a fresh witness over a fresh
+	// store but with the same keys and origins; a "final" event closes each phase (C12).
+	Phases [][]seqStep `json:"phases,omitempty"`
+}
+
+type finalEvent struct {
+	E      string              `json:"e"`
+	Run    string              `json:"run"`
+	K      int                 `json:"k"`
+	Phase  int                 `json:"phase"`
+	Only   string              `json:"only"` // the one log this phase's steps name ("" if several)
+	Stored map[string]world.CP `json:"stored"`
+	FP     map[string]string   `json:"fp"` // per log: digest of text and all signature lines except the timestamped one
+}
+
+type oddEvent struct {
+	E      string `json:"e"`
+	Run    string `json:"run"`
+	K      int    `json:"k"`
+	Cls    string `json:"cls"`
+	Names  string `json:"names"`  // abstract log the cleaned path names ("" = none)
+	First  int    `json:"first"`  // status of the first response
+	LocOK  bool   `json:"locok"`  // a redirect points at the cleaned path
+	Final  int    `json:"final"`  // status after following redirects
+	Served string `json:"served"` // abstract log whose stored bytes were served ("" none, "?" other bytes)
+	Client string `json:"client"` // bundled client on the same id: bytes | notexist | error
+	Path   string `json:"path"`
 }
 
 type seqHeader struct {
@@ -101,6 +131,7 @@ type skipEvent struct {
 type resetEvent struct {
 	E     string `json:"e"`
 	Run   string `json:"run"`
+	Phase int    `json:"phase"`
 	Store string `json:"store"`
 	Embed string `json:"embed"`
 }
@@ -210,6 +241,22 @@ func hexVal(c byte) byte {
 
 func execSeqRun(base *world.World, r seqRun, storeKind, embed string, seed int64, dir string, useHTTP bool) ([]any, error) {
 	tag := fmt.Sprintf("%s-%s-%s-%d", r.ID, storeKind, embed, seed)
+	if len(r.Phases) == 0 {
+		return execPhase(base, tag, -1, r.Steps, storeKind, embed, seed, dir, useHTTP)
+	}
+	var all []any
+	for pi, steps := range r.Phases {
+		ev, err := execPhase(base, tag, pi, steps, storeKind, embed, seed, dir, useHTTP)
+		if err != nil {
+			return nil, err
+		}
+		all = append(all, ev...)
+	}
+	return all, nil
+}
+
+func execPhase(base *world.World, tag string, phase int, steps []seqStep, storeKind, embed string, seed int64, dir string, useHTTP bool) ([]any, error) {
+	r := seqRun{Steps: steps}
 	w := base.ForRun(tag, hashSeed(tag, seed))
 	st, err := newStore(storeKind, dir)
 	if err != nil {
@@ -230,7 +277,7 @@ func execSeqRun(base *world.World, r seqRun, storeKind, embed string, seed int64
 		u, _ := url.Parse(srv.URL)
 		cl = wclient.NewWitness(u, srv.Client())
 	}
-	events := []any{resetEvent{E: "reset", Run: tag, Store: storeKind, Embed: embed}}
+	events := []any{resetEvent{E: "reset", Run: tag, Store: storeKind, Embed: embed, Phase: phase}}
 	pre := takeSnapshot(w, st.p)
 	ctx := context.Background()
 	for k, s := range r.Steps {
@@ -384,11 +431,165 @@ func execSeqRun(base *world.World, r seqRun, storeKind, embed string, seed int64
 			sort.Strings(ids)
 			ev.Val = abstractLogs(w, ids)
 			events = append(events, ev)
+		case "getodd":
+			if !useHTTP {
+				return nil, fmt.Errorf("getodd needs -http")
+			}
+			ev, err := oddGet(w, srv, cl, pre, tag, k, s)
+			if err != nil {
+				return nil, err
+			}
+			events = append(events, ev)
 		default:
 			return nil, fmt.Errorf("unknown op %q", s.Op)
 		}
 	}
+	if phase >= 0 {
+		fe := finalEvent{E: "final", Run: tag, K: len(r.Steps), Phase: phase, Stored: project(w, pre), FP: map[string]string{}}
+		for name := range w.Logs {
+			fe.FP[name] = fingerprint(w, pre.raw[name])
+		}
+		named := map[string]bool{}
+		for _, s := range r.Steps {
+			named[s.Log] = true
+		}
+		if len(named) == 1 {
+			for n := range named {
+				fe.Only = n
+			}
+		}
+		events = append(events, fe)
+	}
 	return events, nil
+}
+
+// fingerprint digests the text and every signature line except cosignature/v1 lines of the witness
+// (whose timestamp legitimately differs between runs).
+func fingerprint(w *world.World, raw []byte) string {
+	if raw == nil {
+		return "none"
+	}
+	n, err := ref.ParseNote(raw)
+	if err != nil {
+		return "unparsable:" + ref.LogID(string(raw))
+	}
+	acc := n.Text
+	for _, sg := range n.Sigs {
+		if sg.Name == w.WitKey.Name && sg.Hash == w.WitKey.KeyHash(ref.AlgCosigV1) {
+			acc += "<cosig/v1>\n"
+			continue
+		}
+		acc += sg.Line
+	}
+	return ref.LogID(acc)
+}
+
+// oddGet requests a syntactically odd log id over HTTP, without and with following redirects.
+func oddGet(w *world.World, srv *httptest.Server, cl wclient.Witness, pre snapshot, tag string, k int, s seqStep) (oddEvent, error) {
+	ev := oddEvent{E: "getodd", Run: tag, K: k, Cls: s.Cls}
+	id := ""
+	if l, ok := w.Logs[s.Log]; ok {
+		id = l.ID
+	} else {
+		id = w.Logs[w.P.Logs[0]].ID
+	}
+	seg := ""
+	switch s.Cls {
+	case "empty":
+		seg = ""
+	case "trailing-slash":
+		seg = id + "/"
+		ev.Names = s.Log // the cleaned path .../<id>/checkpoint names the log
+	case "double-slash":
+		seg = "/" + id
+		ev.Names = s.Log
+	case "dotdot-alias":
+		seg = "zz/../" + id
+		ev.Names = s.Log
+	case "dot-alias":
+		seg = "./" + id
+		ev.Names = s.Log
+	case "slash-inside":
+		seg = id[:32] + "/" + id[32:]
+	case "encoded-slash":
+		seg = id[:32] + "%2F" + id[32:]
+	case "truncated":
+		seg = id[:63]
+	case "prefix":
+		seg = id[:8]
+	case "extended":
+		seg = id + "0"
+	case "uppercase":
+		seg = strings.ToUpper(id)
+		if seg == id {
+			ev.Names = s.Log
+		}
+	case "nonascii":
+		seg = id[:60] + "%C3%A9"
+	case "space":
+		seg = id[:60] + "%20" + id[60:]
+	case "wildcard":
+		seg = "%25"
+	case "star":
+		seg = "*"
+	case "long":
+		seg = strings.Repeat(id, 40)
+	case "dotdot-escape":
+		seg = id + "/../" + "checkpoint"
+	default:
+		return ev, fmt.Errorf("unknown odd id class %q", s.Cls)
+	}
+	p := "/witness/v0/logs/" + seg + "/checkpoint"
+	ev.Path = p
+	noFollow := &http.Client{CheckRedirect: func(*http.Request, []*http.Request) error { return http.ErrUseLastResponse }}
+	resp, err := noFollow.Get(srv.URL + p)
+	if err != nil {
+		ev.First, ev.Final = -1, -1
+		return ev, nil
+	}
+	io.Copy(io.Discard, resp.Body)
+	resp.Body.Close()
+	ev.First = resp.StatusCode
+	if resp.StatusCode == 301 || resp.StatusCode == 308 || resp.StatusCode == 302 || resp.StatusCode == 307 {
+		loc := resp.Header.Get("Location")
+		want := cleanPath(p)
+		ev.LocOK = loc == want || loc == srv.URL+want
+	}
+	resp2, err := srv.Client().Get(srv.URL + p)
+	if err != nil {
+		ev.Final = -1
+		return ev, nil
+	}
+	body, _ := io.ReadAll(resp2.Body)
+	resp2.Body.Close()
+	ev.Final = resp2.StatusCode
+	if resp2.StatusCode == 200 {
+		ev.Served = "?"
+		for name, raw := range pre.raw {
+			if string(raw) == string(body) {
+				ev.Served = name
+			}
+		}
+	}
+	cb, cerr := cl.GetLatestCheckpoint(context.Background(), seg)
+	switch {
+	case cerr == nil && string(cb) == string(body) && resp2.StatusCode == 200:
+		ev.Client = "bytes"
+	case errors.Is(cerr, os.ErrNotExist):
+		ev.Client = "notexist"
+	default:
+		ev.Client = "error"
+	}
+	return ev, nil
+}
+
+// cleanPath is path.Clean that keeps a trailing slash (what gorilla/mux redirects to).
+func cleanPath(p string) string {
+	np := path.Clean(p)
+	if p[len(p)-1] == '/' && np != "/" {
+		np += "/"
+	}
+	return np
 }
 
 func readBack(wit interface{ GetCheckpoint(string) ([]byte, error) }, id string, ret []byte) bool {
